@@ -5,6 +5,7 @@ import MosnVerif.Lemmas.PoolMuxSpec
 import MosnVerif.Lemmas.PoolH2Steps
 import MosnVerif.Lemmas.PoolWinLedger
 import MosnVerif.Lemmas.PoolWinWitness
+import MosnVerif.Lemmas.PoolMxWin  -- (mux6 section at the end of the file)
 /-!
 # C10 — circuit-breaker and active-gauge accounting is conserved (property theorems only)
 
@@ -497,5 +498,80 @@ example : (fun (s : MosnVerif.Model.PoolWin.State) => (s.liveN, s.reqCur, owed .
     (MosnVerif.Model.PoolWin.run (MosnVerif.Model.PoolWin.init .h1 0 1) [.newStream .ok, .endStream 0 .localReset, .taskStep 0]) = (0, 1, 1) := by decide
 
 end PoolLedger
+
+/-! ### ===== BEGIN mux6: multiplex + HTTP/2 pools, request ledger at every intermediate state =====
+
+`Model/PoolMxWin.lean`: every handler of the two pools is a task executing its REGENERATED statement program
+(`Gen/PoolDestroyMx.lean`: NewStream, OnResetStream / onStreamReset, OnDestroyStream, onConnectionEvent's close branch,
+OnGoAway, deleteActiveClient, lock scopes) one statement per label; any other label — another NewStream, a request end
+(response complete / local reset before or after the headers / remote reset), a connection lost with k requests in flight,
+a go-away frame, a connect with a failing dial, the breaker taken elsewhere — may run between two statements; only the
+pool's mutex excludes.  `pend x tasks` = movements of column `x` still ahead in the handlers in progress.  Proved for every
+program set of the decidable class `ledgerOk`; the regenerated programs are decided to be in it on every run. -/
+section MxPoolLedger
+open MosnVerif.Lemmas.PoolMxWin
+open MosnVerif.Model.PoolMxWin (dH dC dR dP pend progsOf Progs)
+
+theorem mx_progs_ledgerOk (k : MosnVerif.Model.PoolMxWin.Kind) : ledgerOk (progsOf k) = true := by cases k <;> decide
+
+/-- **mux_request_ledger_exact_steps**: multiplex pool, after EVERY label of every interleaving, every slot count and limit:
+each request_active gauge + what the handlers in progress still owe = requests in flight + streams still to be created by
+admitted NewStreams; the same for `Requests().Cur()` minus the slots held elsewhere (constant 0 when unlimited). -/
+theorem mux_request_ledger_exact_steps (nSlots maxReq : Nat) (ls : List MosnVerif.Model.PoolMxWin.Label) :
+    Ledger maxReq (MosnVerif.Model.PoolMxWin.run (MosnVerif.Model.PoolMxWin.init .mux nSlots maxReq) ls) :=
+  request_ledger_exact_steps .mux nSlots maxReq _ (mx_progs_ledgerOk .mux) ls
+
+/-- **h2_request_ledger_exact_steps**: the same for the HTTP/2 pool (takes BEFORE the stream is created, dial inside
+NewStream under the pool's mutex, pool hears a close before the streams are reset). -/
+theorem h2_request_ledger_exact_steps (maxReq : Nat) (ls : List MosnVerif.Model.PoolMxWin.Label) :
+    Ledger maxReq (MosnVerif.Model.PoolMxWin.run (MosnVerif.Model.PoolMxWin.init .h2 1 maxReq) ls) :=
+  request_ledger_exact_steps .h2 1 maxReq _ (mx_progs_ledgerOk .h2) ls
+
+/-- **quiescent ⇒ zero** (both pools): no handler in progress and no request in flight ⇒ both gauges 0 and the breaker holds
+exactly what the other pools hold — whatever the end causes and their interleaving were. -/
+theorem mx_quiescent_zero (k : MosnVerif.Model.PoolMxWin.Kind) (nSlots maxReq : Nat) (ls : List MosnVerif.Model.PoolMxWin.Label)
+    (q : (MosnVerif.Model.PoolMxWin.run (MosnVerif.Model.PoolMxWin.init k nSlots maxReq) ls).quiescent) :
+    let s := MosnVerif.Model.PoolMxWin.run (MosnVerif.Model.PoolMxWin.init k nSlots maxReq) ls
+    s.led.rqHost = 0 ∧ s.led.rqCluster = 0 ∧ s.led.reqCur = if maxReq = 0 then 0 else (s.led.ext : Int) :=
+  ledger_quiescent maxReq _ (request_ledger_exact_steps k nSlots maxReq _ (mx_progs_ledgerOk k) ls) q
+
+/-- the fields the witnesses look at -/
+def mxView (s : MosnVerif.Model.PoolMxWin.State) : Int × Int × Int × Nat × Bool :=
+  (s.led.reqCur, s.led.rqHost, s.led.rqCluster, s.led.streams.length, s.tasks.all (fun t => t.rest.isEmpty))
+
+/-- multiplex OnDestroyStream without its `Requests().Decrease()` -/
+def mxDropped : Progs := { progsOf .mux with destroy := [.decHost, .decCluster, .closeIfDrained] }
+/-- HTTP/2 onStreamReset that ALSO decrements the host gauge (OnDestroyStream does it again) -/
+def mxTwice : Progs := { progsOf .h2 with reset := [.decHost, .markActive] }
+/-- multiplex close handler that ALSO gives the breaker slot back (OnDestroyStream of the lost stream does it again) -/
+def mxCloseToo : Progs := { progsOf .mux with close := .decRes :: (progsOf .mux).close }
+
+/-- negation witness, dropped give-back: outside the class; connect, one request, connection lost ⇒ quiescent with
+`Requests().Cur()` = 1 — and with max_requests = 1 the next request overflows. -/
+theorem mx_dropped_giveback_leaks :
+    ledgerOk mxDropped = false ∧
+    mxView (MosnVerif.Model.PoolMxWin.drain 64 (MosnVerif.Model.PoolMxWin.step (MosnVerif.Model.PoolMxWin.drain 64 (MosnVerif.Model.PoolMxWin.run (MosnVerif.Model.PoolMxWin.initWith .mux 1 1 mxDropped) [.connect 0 true, .newStream 0 true])) (.netClose 0)))
+      = (1, 0, 0, 0, true) := by decide
+
+/-- negation witness, give-back executed twice (reset path and OnDestroyStream): the gauge ends at −1. -/
+theorem mx_double_giveback_negative :
+    ledgerOk mxTwice = false ∧
+    mxView (MosnVerif.Model.PoolMxWin.drain 64 (MosnVerif.Model.PoolMxWin.step (MosnVerif.Model.PoolMxWin.drain 64 (MosnVerif.Model.PoolMxWin.run (MosnVerif.Model.PoolMxWin.initWith .h2 1 2 mxTwice) [.newStream 0 true])) (.endStream 0 .localReset)))
+      = (0, -1, 0, 0, true) ∧
+    ledgerOk mxCloseToo = false ∧
+    mxView (MosnVerif.Model.PoolMxWin.drain 64 (MosnVerif.Model.PoolMxWin.step (MosnVerif.Model.PoolMxWin.drain 64 (MosnVerif.Model.PoolMxWin.run (MosnVerif.Model.PoolMxWin.initWith .mux 1 2 mxCloseToo) [.connect 0 true, .newStream 0 true, .newStream 0 true])) (.netClose 0)))
+      = (-1, 0, 0, 0, true) := by decide
+
+-- non-vacuity: the same histories on the pools as they are end at zero; mid-way the ledger counts what is still ahead
+example : mxView (MosnVerif.Model.PoolMxWin.drain 64 (MosnVerif.Model.PoolMxWin.step (MosnVerif.Model.PoolMxWin.drain 64 (MosnVerif.Model.PoolMxWin.run (MosnVerif.Model.PoolMxWin.init .mux 1 1) [.connect 0 true, .newStream 0 true])) (.netClose 0))) = (0, 0, 0, 0, true) := by decide
+example : mxView (MosnVerif.Model.PoolMxWin.drain 64 (MosnVerif.Model.PoolMxWin.step (MosnVerif.Model.PoolMxWin.drain 64 (MosnVerif.Model.PoolMxWin.run (MosnVerif.Model.PoolMxWin.init .h2 1 2) [.newStream 0 true])) (.endStream 0 .localReset))) = (0, 0, 0, 0, true) := by decide
+example : mxView (MosnVerif.Model.PoolMxWin.drain 64 (MosnVerif.Model.PoolMxWin.run (MosnVerif.Model.PoolMxWin.init .mux 1 2) [.connect 0 true, .newStream 0 true, .newStream 0 true])) = (2, 2, 2, 2, true) := by decide
+-- connection lost with two requests in flight, one OnDestroyStream done and one still ahead: Cur = 1 = 0 in flight + 1 owed
+example : (fun s : MosnVerif.Model.PoolMxWin.State => (s.led.reqCur, s.led.streams.length, pend dR s.tasks))
+    (MosnVerif.Model.PoolMxWin.run (MosnVerif.Model.PoolMxWin.drain 64 (MosnVerif.Model.PoolMxWin.run (MosnVerif.Model.PoolMxWin.init .mux 1 2) [.connect 0 true, .newStream 0 true, .newStream 0 true]))
+      [.netClose 0, .taskStep 2, .taskStep 2, .taskStep 2, .taskStep 2]) = (1, 0, -1) := by decide
+
+end MxPoolLedger
+/-! ### ===== END mux6 ===== -/
 
 end MosnVerif.Props.C10
